@@ -81,7 +81,10 @@ Special == IF Kind = "mod"
     THEN {<<Stmt("require", "block", "", <<Req("module", "v1.0.0", FALSE, "", "")>>), Line1("module", Val("example.com/m", "", ""))>>,
           <<Stmt("exclude", "block", "", <<Exc("example.com/a", "v1.0.0", "", ""), Exc("module", "v1.1.0", "", "")>>), Line1("module", Val("example.com/m", "", "")), Line1("go", Val("1.21", "", ""))>>,
           <<Line1("go", Val("1.20", "", "")), Stmt("replace", "block", "", <<Rep("module", "", "../m", "", "", "")>>), Line1("module", Val("example.com/m/v2", "", "modeol"))>>,
-          <<Line1("module", Val("example.com/m", "", "")), Stmt("require", "block", "", <<Req("module", "v1.0.0", TRUE, "", "")>>)>>}
+          <<Line1("module", Val("example.com/m", "", "")), Stmt("require", "block", "", <<Req("module", "v1.0.0", TRUE, "", "")>>)>>,
+          \* the module directive written as a block, alone and with other statements
+          <<Stmt("module", "block", "", <<Val("example.com/m", "", "")>>)>>,
+          <<Stmt("module", "block", "mb", <<Val("example.com/m", "ml", "")>>), Line1("require", Req("example.com/a", "v1.0.0", FALSE, "", ""))>>}
     ELSE {}
 
 \* ------------------------------------------------------------ operation instances
